@@ -56,7 +56,7 @@ func flowCtx(t *rapid.T) Ctx {
 
 func (g *sgen) pick(n int, l string) int { return rapid.IntRange(0, n-1).Draw(g.t, l) }
 
-var textCores = []string{"", "x", "ab", "<p>", "</p>", ".", "é", "T", "{ ", "}", "%", "#", "a b", "-", "'", "\""}
+var textCores = []string{"", "x", "ab", "<p>", "</p>", ".", "é", "T", "(", "}", "%", "#", "a b", "-", "'", "\""}
 var wsRuns = []string{"", " ", "  ", "\n", "\t", " \n ", "\r\n", "\n\n"}
 
 func (g *sgen) text() *S {
